@@ -120,7 +120,7 @@ def run_harness(ws, crate, harness, cargo_args=(), timeout=600, mem_gb=12, extra
     cmd = ["cargo", "kani", "-p", crate] + list(cargo_args) + KANI_FLAGS + ["--harness", harness, "--exact"] + list(extra)
     if playback:
         cmd += ["-Z", "concrete-playback", "--concrete-playback=print"]
-    rc, out, secs, to = run(cmd, cwd=ws.root, timeout=timeout, env=env, mem_gb=None)
+    rc, out, secs, to = run(cmd, cwd=ws.root, timeout=timeout, env=env, mem_gb=mem_gb)
     return {"cmd": " ".join(cmd), "rc": rc, "out": out, "secs": secs, "timed_out": to}
 
 
